@@ -316,14 +316,17 @@ def c08(tier, seed):
 
 
 def c09(tier, seed):
-    return _verus_prop("C09", tier, seed, [("edges", r"::(all_edges|only_inner_type_edges|codegen_edges)::", None), ("roots", None, None), ("blocklist", None, None)], {
-        "trusted_base": ["extraction rules R1-R11; env/edges_env.rs: uninterpreted CodegenConfig reads and Item::is_enabled_for_codegen; is_type_edge table from the Trace impls"],
+    return _verus_prop("C09", tier, seed, [("edges", r"::(all_edges|only_inner_type_edges|codegen_edges)::", None), ("roots", None, None), ("blocklist", None, None), ("traversal", None, None)], {
+        "trusted_base": ["env/traversal_env.rs: TraversalStorage = set, TraversalQueue = bag (covers the LIFO Vec and the FIFO VecDeque), as Verus traits with specifications; the predicate fn pointer applied through an uninterpreted function; Trace impls call visit_kind once per outgoing edge of the item (trace_item = fold of visit_kind's own proved effect)",
+                         "extraction rules R1-R11; env/edges_env.rs: uninterpreted CodegenConfig reads and Item::is_enabled_for_codegen; is_type_edge table from the Trace impls"],
         "functions_under_contract": ["bindgen/ir/traversal.rs: codegen_edges, only_inner_type_edges, all_edges",
+                                     "bindgen/ir/traversal.rs: ItemTraversal::new, <ItemTraversal as Tracer>::visit_kind, <ItemTraversal as Iterator>::next, Edge::new (unit traversal, generic in Storage and Queue): representation invariant (roots seen; queue within seen; every item already taken out has all followed successors seen; everything seen is reachable) established by new and preserved by next; LEMMA lemma_exhausted: with the queue empty, seen == the set reachable from the roots along followed edges; LEMMA lemma_drain (a consumer over the contracts only): draining a fresh traversal yields exactly that set - closure AND minimality",
                                      "bindgen/ir/context.rs: the root-selection predicate of compute_allowlisted_and_codegen_items (a closure, extracted by rule R18; the unnamed-enum variant loop is one uninterpreted accessor)",
                                      "bindgen/ir/item.rs: Item::is_blocklisted (an item matched by an allowlist and a blocklist is not emitted: the traversal skips blocklisted items)"],
         "assumptions": ["root selection: an item is a root exactly when nothing is allowlisted, or it replaces a type, or its file / the generic item list / the list of ITS kind matches its path (+ the documented auto-allowlisting of codeless types in no-recursive mode and of unnamed top-level enums by variant); regex matching and path joining uninterpreted",
+                        "closure/minimality of the walk itself: for every graph (s_edges uninterpreted), every predicate, every root list and either queue discipline; termination of the walk is not proved (finite IR)",
                         "per-edge decision: every edge kind whose target is a type is followed iff types are generated; vars/methods/constructors/destructors likewise; no-recursive mode follows exactly InnerType"],
-        "unverified": ["the variant-path loop of the unnamed-enum clause (seed S17 missed), ItemTraversal over the real graph, every Trace impl, regex anchoring ^(..)$ in regex_set.rs, textual identity with the un-allowlisted run: closure/minimality are not decided"],
+        "unverified": ["the variant-path loop of the unnamed-enum clause (seed S17 missed), every Trace impl (that each reports all of an item's references, once per edge), regex anchoring ^(..)$ in regex_set.rs, textual identity with the un-allowlisted run; the call sites that build the traversals (roots, predicate choice) beyond the root-selection closure"],
     })
 
 
